@@ -618,3 +618,6 @@ RULES = [
     ("C07.MAXINCLUDES", 5, rule_maxincludes),
     ("C07.CHROMATWIN", 7, rule_chromatwin),
 ]
+
+from . import common as _common_purity
+RULES = RULES + _common_purity.purity_rules("C07")
